@@ -154,11 +154,11 @@ Section MarlinComplete.
     Definition honest (it : LPoly * MRand) (c : LComm) : Prop :=
       let '(lp, st) := it in
       lc_bound c = lp_bound lp /\
-      trim (mr_rand st) = mr_rand st /\ (length (mr_rand st) <= m)%nat /\
+      (length (mr_rand st) <= m)%nat /\
       mc_comm (lc_comm c) = g * eval (lp_poly lp) b + gam * eval (mr_rand st) b /\
       match lp_bound lp with
       | None => mc_shifted (lc_comm c) = None /\ mr_shifted st = None
-      | Some d => exists rs, mr_shifted st = Some rs /\ trim rs = rs /\ (length rs <= m)%nat /\
+      | Some d => exists rs, mr_shifted st = Some rs /\ (length rs <= m)%nat /\
                              nat_mem d (bounds_list ck) = true /\
                              mc_shifted (lc_comm c) = Some (g * fpow b (D - d) * eval (lp_poly lp) b + gam * eval rs b)
       end.
@@ -196,10 +196,10 @@ Section MarlinComplete.
       - inversion HF; subst. cbn [open_loop] in HO. inversion HO; subst. exists cc, cv. split; [reflexivity|exact HI].
       - inversion HF as [|it c items' cs' Hh HF']; subst. clear HF.
         cbn [map fst]. cbn [open_loop] in HO. cbn [accumulate].
-        destruct Hh as (Hb & Htr & Hlr & Hc & Hs).
+        destruct Hh as (Hb & Hlr & Hc & Hs).
         destruct HI as (I1 & I2 & I3 & L1 & L2 & L3 & I7 & I8).
         destruct (lp_bound lp) as [d|] eqn:Eb.
-        + destruct Hs as (rs & Ers & Htrs & Hlrs & Hmem & Hsc).
+        + destruct Hs as (rs & Ers & Hlrs & Hmem & Hsc).
           rewrite Ers in HO. cbn [Bool.eqb negb] in HO.
           destruct (check_degrees_and_bounds _ _ _ _) as [[]| |]; cbn [bind] in HO; try discriminate.
           destruct chal as [|cj chal1]; [discriminate|].
